@@ -19,7 +19,7 @@ THEOREMS = [("Sylvia.Thm.C18", "C18." + t) for t in
             ("Sylvia.Thm.Obl.T.replyOn_documented", "Obl.replyOn_documented"),
             ("Sylvia.Thm.ReplyOnFn", "ReplyOnFn.excludes_eq"), ("Sylvia.Thm.ReplyOnFn", "ReplyOnFn.excludes_symmetric"),
             ("Sylvia.Thm.ReplyParamFn", "ReplyParamFn.as_data_field_spec"), ("Sylvia.Thm.ReplyParamFn", "ReplyParamFn.assert_no_redundant_params_spec"),
-            ("Sylvia.Thm.ReplyParamFn", "ReplyParamFn.enumFindFrom_first")]
+            ("Sylvia.Thm.ReplyParamFn", "ReplyParamFn.enumFindFrom_first"), ("Sylvia.Thm.ReplyParamFn", "ReplyParamFn.as_variant_handlers_pair_spec")]
 
 
 # ---------------------------------------------------------------------------------------------
